@@ -41,7 +41,16 @@ fi
 for f in $FLAVOURS; do
   case $f in
     plain) [ -x "$B/bin/simcheck" ] || ( cd "$VERIF/sim" && go build -modfile="$B/harness.mod" -o "$B/bin/simcheck" ./cmd/simcheck ) || fail "plain build failed" ;;
-    race)  [ -x "$B/bin/simcheck-race" ] || ( cd "$VERIF/sim" && go build -race -modfile="$B/harness.mod" -o "$B/bin/simcheck-race" ./cmd/simcheck ) || fail "race build failed" ;;
+    race)  if [ ! -x "$B/bin/simcheck-race" ]; then
+             # std sync.Pool neutralised in the race binary (DESIGN.md §4): Put drops, so no object and no
+             # happens-before edge ever travels from one goroutine to another through a dependency's pool
+             GOROOT_DIR=$(go env GOROOT); OV="$CACHE/overlay"; mkdir -p "$OV"
+             awk '{print} /^func \(p \*Pool\) Put\(x any\) \{/ {print "\tif true {\n\t\treturn // simcheck overlay: never recycle\n\t}"}' "$GOROOT_DIR/src/sync/pool.go" > "$OV/pool.go.new"
+             grep -q "simcheck overlay" "$OV/pool.go.new" || fail "sync/pool.go overlay did not apply"
+             cmp -s "$OV/pool.go.new" "$OV/pool.go" 2>/dev/null || mv "$OV/pool.go.new" "$OV/pool.go"
+             printf '{"Replace":{"%s":"%s"}}\n' "$GOROOT_DIR/src/sync/pool.go" "$OV/pool.go" > "$OV/overlay.json"
+             ( cd "$VERIF/sim" && go build -race -overlay "$OV/overlay.json" -modfile="$B/harness.mod" -o "$B/bin/simcheck-race" ./cmd/simcheck ) || fail "race build failed"
+           fi ;;
   esac
 done
 
